@@ -171,6 +171,11 @@ func (fv *FnV) moduleCall(st *State, callee *ssa.Function, args []ssa.Value, clo
 			if li := fv.innermostLoop(); li != nil {
 				env.loop = li
 			}
+			for i, a := range argTerms {
+				if i < len(callee.Params) {
+					env.vars[fmt.Sprintf("arg%d", i)] = CVal{T: fv.term(a), S: fv.g.sortOf(callee.Params[i].Type()), Typ: callee.Params[i].Type()}
+				}
+			}
 			t, err := env.evalBool(cl.Text)
 			if err != nil {
 				return nil, fmt.Errorf("%s: at-call %s assert %s: %v", fv.name, cname, cl.Label, err)
@@ -265,23 +270,24 @@ func (fv *FnV) moduleCall(st *State, callee *ssa.Function, args []ssa.Value, clo
 	if k == nil || !k.ErrorIsValue {
 		fv.recordErrCall(st, cname, sig, res, pos)
 	}
-	// reached-flag of this call site (for called(...))
+	fv.markCalled(st, cname, pos)
+	return res, nil
+}
+
+// markCalled sets the reached-flag of a call site (for called(...) in contracts).
+func (fv *FnV) markCalled(st *State, cname string, pos token.Pos) {
 	if fv.callFlags == nil {
 		fv.callFlags = map[string][]string{}
 	}
 	flag := fmt.Sprintf("X|call%d", int(pos))
 	st.heap[flag] = "true"
 	sc := shortCallee(cname)
-	seen := false
 	for _, f := range fv.callFlags[sc] {
 		if f == flag {
-			seen = true
+			return
 		}
 	}
-	if !seen {
-		fv.callFlags[sc] = append(fv.callFlags[sc], flag)
-	}
-	return res, nil
+	fv.callFlags[sc] = append(fv.callFlags[sc], flag)
 }
 
 func sortedKeys(m map[string]map[int]bool) []string {
@@ -391,6 +397,7 @@ func (fv *FnV) nonNilError(st *State, hint string) string {
 }
 
 func (fv *FnV) libCall(st *State, callee *ssa.Function, cc *ssa.CallCommon, pos token.Pos) (*SV, error) {
+	fv.markCalled(st, "lib."+callee.Name(), pos)
 	name := callee.String()
 	sig := callee.Signature
 	g := fv.g
